@@ -105,6 +105,23 @@ type lgen struct {
 	n     int
 	odd   bool // the odd stream: inline block comments, several declarations on one line, multi-line trailing blocks
 	split bool // names of one declaration on several lines (known finding name_on_continuation_line)
+	dirs  bool // the //line stream: declarations behind `//line name:N:1` directives
+	ndir  int
+}
+
+// lineDir: a directive in front of a declaration: a new file name (each directive its own) or the file's own
+// name, and a forward jump of the line numbers (see LineDir).
+func (g *lgen) lineDir(pct int) *LineDir {
+	if !g.dirs || !g.r.Chance(pct) {
+		return nil
+	}
+	g.ndir++
+	skip := core.Pick(g.r, []int{0, 0, 1, 7, 100, 1000})
+	if g.r.Chance(25) {
+		return &LineDir{Skip: skip}
+	}
+	ext := core.Pick(g.r, []string{".y", ".go", ".go.tmpl", ".l", ""})
+	return &LineDir{Name: fmt.Sprintf("gen%d%s", g.ndir, ext), Skip: skip}
 }
 
 func (g *lgen) name(prefix string) string {
@@ -218,8 +235,9 @@ func (g *lgen) fields(depth int, iface bool) []Field {
 			nm = f.Names[0]
 		}
 		g.around(nm, &f.Doc, &f.Trail, &f.Det, &f.Blank, &f.Inline)
+		f.Dir = g.lineDir(8)
 		if g.odd && i > 0 && len(f.Sub) == 0 && len(fs[i-1].Sub) == 0 && r.Chance(15) { // A int; B int
-			f.Semi, f.Doc, f.Det, f.Blank = true, nil, nil, 0
+			f.Semi, f.Doc, f.Det, f.Blank, f.Dir = true, nil, nil, 0, nil
 			fs[i-1].Trail = nil
 		}
 		fs = append(fs, f)
@@ -243,7 +261,7 @@ func (g *lgen) spec(kind string, grouped bool) Spec {
 				s.OneLine = true
 				for i := range s.Fields {
 					f := &s.Fields[i]
-					*f = Field{Names: f.Names, Type: f.Type, Tag: ""}
+					*f = Field{Names: f.Names, Type: f.Type, Tag: ""} // (a directive cannot stand inside a line)
 					if len(f.Names) == 0 && f.Type == "" || f.Type == "" {
 						f.Names, f.Type = []string{g.name("F")}, "int"
 					}
@@ -283,6 +301,9 @@ func (g *lgen) spec(kind string, grouped bool) Spec {
 		s.Split = g.split && k > 1 && r.Chance(50)
 	}
 	g.around(s.Names[0], &s.Doc, &s.Trail, &s.Det, &s.Blank, &s.Inline)
+	if grouped {
+		s.Dir = g.lineDir(10)
+	}
 	if !grouped {
 		s.Doc, s.Det, s.Blank = nil, nil, 0 // an ungrouped declaration has its comments on the Decl
 	}
@@ -294,6 +315,7 @@ func (g *lgen) decl(kind string, local bool) Decl {
 	d := Decl{Kind: kind}
 	var trail, inline *Cmt
 	g.around(kind, &d.Doc, &trail, &d.Det, &d.Blank, &inline)
+	d.Dir = g.lineDir(map[bool]int{true: 10, false: 30}[local])
 	if kind == "func" {
 		d.Name = g.name("Fn")
 		np := r.Intn(3)
@@ -320,7 +342,7 @@ func (g *lgen) decl(kind string, local bool) Decl {
 			if g.odd && i > 0 && !(s.TK == "struct" && !s.OneLine) && s.TK != "iface" && r.Chance(12) {
 				prev := &d.Specs[i-1]
 				if !(prev.TK == "struct" && !prev.OneLine) && prev.TK != "iface" && !(prev.Trail != nil && prev.Trail.B && len(prev.Trail.L) > 1) {
-					s.Semi, s.Doc, s.Det, s.Blank = true, nil, nil, 0
+					s.Semi, s.Doc, s.Det, s.Blank, s.Dir = true, nil, nil, 0, nil
 					prev.Trail = nil
 				}
 			}
@@ -359,11 +381,15 @@ func (g *lgen) file(first bool) File {
 		}
 		f.Decls = append(f.Decls, d)
 	}
+	if g.dirs && first && g.ndir == 0 { // at least one directive, with declarations behind it
+		g.ndir++
+		f.Decls[len(f.Decls)/2].Dir = &LineDir{Name: "gen1.y", Skip: r.Intn(900)}
+	}
 	return f
 }
 
-func genLayout(r *core.RNG, odd, split bool) json.RawMessage {
-	g := &lgen{r: r, odd: odd, split: split}
+func genLayout(r *core.RNG, odd, split, dirs bool) json.RawMessage {
+	g := &lgen{r: r, odd: odd, split: split, dirs: dirs}
 	files := []File{g.file(true)}
 	if r.Chance(30) {
 		files = append(files, g.file(false))
@@ -412,6 +438,46 @@ func fixedLayouts() []json.RawMessage {
 		),
 		// names on a continuation line (known finding name_on_continuation_line)
 		layoutInput(structOf(Field{Names: []string{"F", "G"}, Type: "int", Split: true, Doc: lc(" doc FG"), Trail: lc(" trailing FG")}, Field{Names: []string{"H"}, Type: "int"})),
+		// declarations behind a //line directive that renames the file (goyacc / cgo / template output; seeded
+		// change C12-d): docs, tag lines and trailing comments of types, fields, grouped constants and variables
+		layoutInput(File{Decls: []Decl{
+			{Kind: "type", Blank: 1, Doc: lc(" Plain is documented"), Specs: []Spec{{Names: []string{"Plain"}, TK: "struct", Fields: []Field{{Names: []string{"ID"}, Type: "int", Doc: lc(" ID doc"), Trail: lc(" trailing ID")}}}}},
+			{Kind: "type", Dir: &LineDir{Name: "node.y", Skip: 120}, Doc: lc(" Node is documented", " +gengo:node=yes"), Specs: []Spec{{Names: []string{"Node"}, TK: "struct", Trail: lc(" trailing Node"), Fields: []Field{
+				{Names: []string{"Kind"}, Type: "int", Doc: lc(" Kind of node"), Trail: lc(" trailing kind")},
+				{Names: []string{"Next"}, Type: "*int"},
+			}}}},
+			{Kind: "const", Grouped: true, Blank: 1, Specs: []Spec{
+				{Names: []string{"KindLeaf"}, Value: "1", Doc: lc(" KindLeaf doc", " @leaf"), Trail: lc(" trailing leaf")},
+				{Names: []string{"KindTree"}, Value: "2"},
+			}},
+			{Kind: "var", Doc: bc(" V doc "), Specs: []Spec{{Names: []string{"V", "W"}, Value: "1, 2", Trail: bc(" block trailing ")}}},
+		}}),
+		// the directive keeps the file name and only jumps in the line numbers; a second directive further down;
+		// directives between struct fields, between grouped specs and inside a function body; a second file
+		layoutInput(
+			File{Decls: []Decl{
+				{Kind: "type", Blank: 1, Dir: &LineDir{Skip: 1000}, Doc: lc(" A doc"), Specs: []Spec{{Names: []string{"A"}, TK: "struct", Fields: []Field{
+					{Names: []string{"X"}, Type: "int", Trail: lc(" trailing X")},
+					{Names: []string{"Y"}, Type: "int", Dir: &LineDir{Name: "fields.go.tmpl"}, Doc: lc(" Y doc", " +y"), Trail: lc(" trailing Y")},
+					{Names: []string{"Z"}, Type: "int"},
+				}, Trail: lc(" trailing A")}}},
+				{Kind: "const", Grouped: true, Doc: lc(" group"), Specs: []Spec{
+					{Names: []string{"K1"}, Value: "1", Trail: lc(" trailing K1")},
+					{Names: []string{"K2"}, Value: "2", Dir: &LineDir{Name: "consts.y", Skip: 300}, Doc: lc(" K2 doc")},
+					{Names: []string{"K3"}, Value: "3", Trail: lc(" trailing K3")},
+				}},
+				{Kind: "func", Blank: 1, Doc: lc(" Fn does"), Name: "Fn", Body: []Decl{
+					{Kind: "var", Specs: []Spec{{Names: []string{"x"}, Type: "int", Trail: lc(" trailing x")}}},
+					{Kind: "var", Dir: &LineDir{Name: "body.l", Skip: 1}, Doc: lc(" y doc"), Specs: []Spec{{Names: []string{"y"}, Type: "int", Trail: lc(" trailing y")}}},
+				}},
+				{Kind: "type", Doc: lc(" After doc"), Specs: []Spec{{Names: []string{"After"}, TK: "basic", Type: "int", Trail: lc(" trailing After")}}},
+			}},
+			File{Decls: []Decl{
+				{Kind: "type", Blank: 1, Doc: lc(" B doc"), Specs: []Spec{{Names: []string{"B"}, TK: "basic", Type: "int", Trail: lc(" trailing B")}}},
+				{Kind: "type", Dir: &LineDir{Name: "other.y", Skip: 3}, Doc: lc(" C doc"), Specs: []Spec{{Names: []string{"C"}, TK: "basic", Type: "int", Trail: lc(" trailing C")}}},
+				{Kind: "type", Dir: &LineDir{}, Doc: lc(" D doc"), Specs: []Spec{{Names: []string{"D"}, TK: "basic", Type: "int", Trail: lc(" trailing D")}}},
+			}},
+		),
 		// import with a trailing comment, function with parameters and local declarations
 		layoutInput(File{Decls: []Decl{
 			{Kind: "import", Blank: 1, Specs: []Spec{{Names: []string{"_"}, Path: "unsafe", Trail: lc(" for linkname")}}},
@@ -452,7 +518,8 @@ func (prop) Generate(r *core.RNG, tier string) []json.RawMessage {
 	li := 0
 	for i := 0; i < nTags; i++ {
 		if i%per == 0 && li < nLayouts {
-			out = append(out, genLayout(r.Fork(), li%8 == 7, li%32 == 15))
+			// every 3rd layout has //line directives (also combined with the odd stream)
+			out = append(out, genLayout(r.Fork(), li%8 == 7, li%32 == 15, li%3 == 1))
 			li++
 		}
 		if i%10 == 9 {
@@ -562,6 +629,10 @@ func exhaustiveLayouts() []json.RawMessage {
 		}
 		files = append(files, File{Decls: decls})
 		out = append(out, layoutInput(files...))
+		// the same file with everything behind a //line directive that renames it
+		behind := append([]Decl{}, decls...)
+		behind[0].Dir = &LineDir{Name: "exhaustive.y", Skip: 500}
+		out = append(out, layoutInput(File{Decls: behind}))
 	}
 	return out
 }
@@ -654,6 +725,9 @@ func (prop) Shrink(in json.RawMessage) []json.RawMessage {
 					return
 				}
 				f := &(*fl)[i]
+				if f.Dir != nil && !changed && hit() {
+					f.Dir, changed = nil, true
+				}
 				cm(&f.Doc)
 				cm(&f.Trail)
 				cm(&f.Det)
@@ -673,6 +747,9 @@ func (prop) Shrink(in json.RawMessage) []json.RawMessage {
 		shrinkDecls = func(ds []Decl) {
 			for i := range ds {
 				d := &ds[i]
+				if d.Dir != nil && !changed && hit() {
+					d.Dir, changed = nil, true
+				}
 				cm(&d.Doc)
 				cm(&d.Det)
 				cm(&d.Open)
@@ -690,6 +767,9 @@ func (prop) Shrink(in json.RawMessage) []json.RawMessage {
 						return
 					}
 					s := &d.Specs[si]
+					if s.Dir != nil && !changed && hit() {
+						s.Dir, changed = nil, true
+					}
 					cm(&s.Doc)
 					cm(&s.Trail)
 					cm(&s.Det)
